@@ -259,6 +259,11 @@ pub struct HSpec {
     /// mutating text handler insensitive to how the node is fragmented into chunks).
     #[serde(default)]
     pub last_only: bool,
+    /// Put this handler into the same `ElementContentHandlers` / `DocumentContentHandlers`
+    /// entry as the previous registration of the same class (same selector), if that entry's
+    /// slot for this kind is still free. Entries keep the position of their first handler.
+    #[serde(default)]
+    pub merge: bool,
 }
 
 impl HSpec {
@@ -270,6 +275,7 @@ impl HSpec {
             end_tag_ops: None,
             log: true,
             last_only: false,
+            merge: false,
         }
     }
     pub fn obs_end_tag(sel: &str) -> Self {
@@ -280,6 +286,7 @@ impl HSpec {
             end_tag_ops: Some(vec![]),
             log: true,
             last_only: false,
+            merge: false,
         }
     }
     pub fn with_ops(kind: HKind, sel: &str, ops: Vec<Op>) -> Self {
@@ -290,6 +297,7 @@ impl HSpec {
             end_tag_ops: None,
             log: true,
             last_only: false,
+            merge: false,
         }
     }
 }
@@ -337,6 +345,14 @@ impl Cfg {
     }
     pub fn strict(mut self, s: bool) -> Self {
         self.strict = s;
+        self
+    }
+    /// Registers adjacent handlers of one selector (and adjacent document-level handlers) in
+    /// one combined `ElementContentHandlers` / `DocumentContentHandlers` entry where possible.
+    pub fn merged(mut self, m: bool) -> Self {
+        for h in &mut self.handlers {
+            h.merge = m;
+        }
         self
     }
     pub fn enc(mut self, e: &str) -> Self {
@@ -627,6 +643,38 @@ macro_rules! make_builder {
             let cfg = &p.cfg;
             let mut settings: Settings<'static, 's, $H> = $new;
             let fail_at = cfg.fail_at;
+            // pending (not yet appended) entries, so that `merge` registrations can join them
+            let mut pend_el: Option<(usize, [bool; 3], ElementContentHandlers<'static, $H>)> = None;
+            let mut pend_doc: Option<([bool; 4], DocumentContentHandlers<'static, $H>)> = None;
+            macro_rules! el_slot {
+                ($idx:expr, $h:expr, $slot:expr) => {{
+                    let can = $h.merge
+                        && pend_el.as_ref().is_some_and(|(i, used, _)| cfg.handlers[*i].sel == $h.sel && !used[$slot]);
+                    if !can {
+                        if let Some((i, _, e)) = pend_el.take() {
+                            settings = settings.append_element_content_handler((Cow::Borrowed(p.selectors[i].as_ref().unwrap()), e));
+                        }
+                        pend_el = Some(($idx, [false; 3], ElementContentHandlers::default()));
+                    }
+                    let (i, mut used, e) = pend_el.take().unwrap();
+                    used[$slot] = true;
+                    (i, used, e)
+                }};
+            }
+            macro_rules! doc_slot {
+                ($h:expr, $slot:expr) => {{
+                    let can = $h.merge && pend_doc.as_ref().is_some_and(|(used, _)| !used[$slot]);
+                    if !can {
+                        if let Some((_, d)) = pend_doc.take() {
+                            settings = settings.append_document_content_handler(d);
+                        }
+                        pend_doc = Some(([false; 4], DocumentContentHandlers::default()));
+                    }
+                    let (mut used, d) = pend_doc.take().unwrap();
+                    used[$slot] = true;
+                    (used, d)
+                }};
+            }
             for (idx, h) in cfg.handlers.iter().enumerate() {
                 let reg = idx as u16;
                 let sh = shared.clone();
@@ -660,10 +708,8 @@ macro_rules! make_builder {
                             }
                             Ok(())
                         };
-                        settings = settings.append_element_content_handler((
-                            Cow::Borrowed(p.selectors[idx].as_ref().unwrap()),
-                            ElementContentHandlers::default().element(handler),
-                        ));
+                        let (i, used, e) = el_slot!(idx, h, 0);
+                        pend_el = Some((i, used, e.element(handler)));
                     }
                     HKind::Text => {
                         let handler = move |t: &mut TextChunk<'_>| {
@@ -676,10 +722,8 @@ macro_rules! make_builder {
                             }
                             Ok(())
                         };
-                        settings = settings.append_element_content_handler((
-                            Cow::Borrowed(p.selectors[idx].as_ref().unwrap()),
-                            ElementContentHandlers::default().text(handler),
-                        ));
+                        let (i, used, e) = el_slot!(idx, h, 1);
+                        pend_el = Some((i, used, e.text(handler)));
                     }
                     HKind::Comments => {
                         let handler = move |c: &mut Comment<'_>| {
@@ -690,10 +734,8 @@ macro_rules! make_builder {
                             apply_comment_ops(c, &ops, reg, &sh);
                             Ok(())
                         };
-                        settings = settings.append_element_content_handler((
-                            Cow::Borrowed(p.selectors[idx].as_ref().unwrap()),
-                            ElementContentHandlers::default().comments(handler),
-                        ));
+                        let (i, used, e) = el_slot!(idx, h, 2);
+                        pend_el = Some((i, used, e.comments(handler)));
                     }
                     HKind::DocDoctype => {
                         let handler = move |d: &mut Doctype<'_>| {
@@ -706,9 +748,8 @@ macro_rules! make_builder {
                             }
                             Ok(())
                         };
-                        settings = settings.append_document_content_handler(
-                            DocumentContentHandlers::default().doctype(handler),
-                        );
+                        let (used, d) = doc_slot!(h, 0);
+                        pend_doc = Some((used, d.doctype(handler)));
                     }
                     HKind::DocComments => {
                         let handler = move |c: &mut Comment<'_>| {
@@ -719,9 +760,8 @@ macro_rules! make_builder {
                             apply_comment_ops(c, &ops, reg, &sh);
                             Ok(())
                         };
-                        settings = settings.append_document_content_handler(
-                            DocumentContentHandlers::default().comments(handler),
-                        );
+                        let (used, d) = doc_slot!(h, 1);
+                        pend_doc = Some((used, d.comments(handler)));
                     }
                     HKind::DocText => {
                         let handler = move |t: &mut TextChunk<'_>| {
@@ -734,9 +774,8 @@ macro_rules! make_builder {
                             }
                             Ok(())
                         };
-                        settings = settings.append_document_content_handler(
-                            DocumentContentHandlers::default().text(handler),
-                        );
+                        let (used, d) = doc_slot!(h, 2);
+                        pend_doc = Some((used, d.text(handler)));
                     }
                     HKind::DocEnd => {
                         let handler = move |e: &mut DocumentEnd<'_>| {
@@ -749,11 +788,16 @@ macro_rules! make_builder {
                             }
                             Ok(())
                         };
-                        settings = settings.append_document_content_handler(
-                            DocumentContentHandlers::default().end(handler),
-                        );
+                        let (used, d) = doc_slot!(h, 3);
+                        pend_doc = Some((used, d.end(handler)));
                     }
                 }
+            }
+            if let Some((i, _, e)) = pend_el.take() {
+                settings = settings.append_element_content_handler((Cow::Borrowed(p.selectors[i].as_ref().unwrap()), e));
+            }
+            if let Some((_, d)) = pend_doc.take() {
+                settings = settings.append_document_content_handler(d);
             }
             for i in 0..cfg.bail_out_handlers {
                 let sh = shared.clone();
